@@ -156,6 +156,53 @@ def parse_sanitizer(stderr_text):
     return kind, func
 
 
+def parse_valgrind(errtxt):
+    """memcheck errors attributed to the VPCASE marker that precedes them. Returns [(idx,key,desc,detail)]."""
+    out = []
+    cur = None
+    lines = errtxt.splitlines()
+    i = 0
+    while i < len(lines):
+        ln = re.sub(r"^(==|\*\*)\d+(==|\*\*) ?", "", lines[i])
+        if ln.startswith("VPCASE\t"):
+            f = ln.split("\t")
+            if len(f) >= 4:
+                cur = (int(f[1]), f[2], f[3])
+        else:
+            m = re.match(r"(Invalid (read|write) of size \d+|Conditional jump or move depends on uninitialised value|"
+                         r"Use of uninitialised value of size \d+|Syscall param .* uninitialised|"
+                         r"Uninitialised byte\(s\) found during client check request|Invalid free|Mismatched free|"
+                         r"Source and destination overlap in (\w+)\((0x[0-9A-Fa-f]+), (0x[0-9A-Fa-f]+))", ln)
+            if m and cur:
+                if m.group(0).startswith("Source and destination") and m.group(4) == m.group(5):
+                    i += 1
+                    continue  # memcpy(dst == src): identical pointers, see DESIGN 2.5
+                kind = re.sub(r" of size \d+", "", m.group(1) if not m.group(0).startswith("Source") else "Overlap")
+                kind = re.sub(r"[^A-Za-z]+", "-", kind).strip("-")
+                func = "?"
+                in_harness = False
+                j = i + 1
+                while j < len(lines) and j < i + 14:
+                    fm = re.search(r"(?:at|by) 0x[0-9A-F]+: (\S+)", lines[j])
+                    if fm:
+                        fn = fm.group(1)
+                        if not (fn.startswith("mem") or fn.startswith("__") or fn.startswith("_mm")):
+                            if HARNESS_FUNC_RE.match(fn) or fn in ("op_exec", "hash_bytes", "fill_buf", "mix64"):
+                                in_harness = True
+                                break
+                            func = fn
+                            break
+                    j += 1
+                if in_harness and "client check request" not in ln:
+                    # the harness itself touched undefined bytes (e.g. hashing): the explicit definedness
+                    # check (client request) is the monitor for that; not attributed to the library
+                    i += 1
+                    continue
+                out.append((cur[0], f"{cur[1]}|memcheck:{kind}@{func}", cur[2], "\n".join(lines[i:i + 12])))
+        i += 1
+    return out
+
+
 class PartResult:
     def __init__(self):
         self.viol = []      # (idx, key, desc, detail)
@@ -222,6 +269,10 @@ def run_part(exe, prop, tier, seed, part, nparts, mode, workdir, timeout, wrappe
                 crash = (int(st[0]), st[1], st[2], f"exit:{rc}")
         if "ThreadSanitizer" in errtxt:
             res.tsan_reports.append(errtxt)
+        if wrapper and "valgrind" in wrapper[0]:
+            res.viol += parse_valgrind(errtxt)
+            if rc == 97 and last_done:
+                return res
         if rc == 0 and last_done:
             return res
         if rc == "timeout":
